@@ -11,12 +11,60 @@ EXTRACT = "extract/C12.v"
 DEPS = ["Pkg", "Rx", "C01", "C15"]
 DESIGN_REF = "DESIGN.md section 5, C12"
 DRIVE_TIMEOUT = 3000
-TECHNIQUE = "placeholder"
-RULE = "placeholder"
-TRUSTED = ["placeholder"]
-ASSUMPTIONS = ["placeholder"]
-LEVEL_TEXT = "placeholder"
-LEVEL_NOTE = "placeholder"
+TECHNIQUE = ("Coq proofs over ALL interleavings: frame property of routing by induction over the operation list (any interleaving of the packets of any "
+             "channels and of closes of other channels), invariant of id allocation + registration under the map lock over every schedule of the atomic steps "
+             "(induction over the step list), demultiplexing of ANY interleaving of the channels' transport writes on top of the C01 theorems; "
+             "+ correspondence of the models with the real Conn/Channel on an in-memory transport: sequential interleavings predicted exactly, recorded "
+             "histories of 1..16 goroutines (GOMAXPROCS 1/4/16) judged per channel by the extracted predicates; + the same under a -race build")
+RULE = ("fn 4 setup: one logical channel is created against a peer that answers the SETUP packet with a header-only packet of every message type 0..31 "
+        "(+ sampled 32..255), a PROTACK for the channel / for an unknown channel, a normal package, a malformed package, or nothing (then the connection context is "
+        "cancelled); packets for channel 0 in front. Output: result, id, every transport write. "
+        "fn 1 routing: 1..16 channels created with the real protocol, part of them re-registered under ids whose two bytes differ (255, 256, 257, 0x1234, 0x3412, "
+        "0x8000, 0xff00, 65534, 65535, random); per channel 1..3 generated responses (all server package types of the rx grammar, ENVCHANGE incl. PACKSIZE, EED, result "
+        "sets) cut into packets at random (cut probability 1/4, 1/12, 1/40), header-only packets in between; the packets of all channels are merged in random "
+        "order; packets for ids that are not registered (neighbours, byte swaps, bit flips of registered ids) are inserted; every fourth case closes logical channels in "
+        "the middle of their stream. After EVERY packet: what each channel received (hook calls, packages, errors) and the ids the connection reported invalid. "
+        "fn 2 sending: 1..16 channels (ids as above, packet counters started at 1 / 250..255 / random), packet sizes 9, 16, 64, 512, 600, 2048, random 9..700; 2..40 "
+        "operations from one goroutine: a message of 1..3 packages in 1..3 chunks (lengths around multiples of the body size) on a random channel, Close of a logical "
+        "channel, sends on closed channels, the server announcing another packet size (valid and invalid) on some channel. Output: every transport write in order. "
+        "fn 3 concurrent: g = 1, 2, 3, 4, 8, 16 (+ random 1..16) goroutines x GOMAXPROCS 1/4/16 start together, each calls NewChannel, sends 0..4 messages and reads every "
+        "response to its final DONE with NextPackage, then closes its channel (channel 0 by logout); random Gosched. The peer multiplexes: it answers each message with a "
+        "generated response cut into packets, feeds the pending packets of all channels in random interleaving, re-announces the packet size in a third of the responses, "
+        "sends up to 5 packets for channel ids that do not exist. The recorded history (ids returned, per channel: messages sent, packets the peer sent, packages "
+        "delivered, the client's writes carrying that id, connection errors seen) is the input of the predicates. Quick: 198 concurrent histories + 108 under -race; "
+        "thorough: 3960 + 1080. A seed reproduces the generator choices, not the schedule. Non-trivial = input longer than 60 characters; distinct by (fn, input).")
+TRUSTED = ["Coq 8.16.1 kernel + vm_compute (no native_compute)",
+           "hand-written models coq/theories/C12/Model.v (routing, allocation steps, multiplexed sending, setup) over Rx/Model.v (receive path of one channel) and "
+           "C01/Model.v + C15/Model.v (send path, packet queue), tied to the code by this correspondence and by those of C01/C02/C03/C11/C15",
+           "constants re-tabulated from the code on every run (Gen/GenC12.v, Gen/GenC01.v, Gen/GenPkg.v)",
+           "harness/cmd/c12 (in-memory transport, scripted / multiplexing peer, history recorder), harness/pk/core (response generator, renderers), tds/verif_hooks.go "
+           "(VerifNewConn, VerifSetChannelId, VerifSetCurPacketNr, VerifSetPacketSize, VerifQueueLens, VerifNextErr), ocaml/driver.ml, extraction with ExtrOcamlBasic only, "
+           "the Go race detector"]
+ASSUMPTIONS = ["sync.RWMutex gives mutual exclusion (a thread that does not hold tdsChannelsLock does not move inside the critical section: built into the step function); "
+               "atomic.AddUint32 and the map operations are single steps; the reader's lookups under the read lock do not change the state and are omitted",
+               "one transport Write per packet is atomic (net.Conn / tls.Conn serialise concurrent writes); a channel is used by ONE goroutine at a time (the library's design: "
+               "sender state is only protected by a read lock) - several channels are used concurrently",
+               "a Gallina model cannot exhibit data races or real schedules: 'without data races' is observed only - 306 (quick) histories and all sequential families run "
+               "again under the Go race detector, a DATA RACE report is a violation; not provoked: Close / Conn.Close of a channel while another goroutine sends on the SAME channel",
+               "the packet size is connection state; in the concurrent histories the server only re-announces the size in force (the value senders load concurrently never "
+               "changes, so the recorded writes are schedule-independent); that a new size is used by later messages of every channel is checked sequentially (fn 2)",
+               "packets for unknown ids are only sent once every NewChannel has been acknowledged: NewChannel waits in NextPackage and would take a connection error "
+               "meant for 'whoever asks next' as its own failure (behaviour of the code, mirrored by the model: new_channel_wait [AConnError] = NcError)",
+               "NewChannel accepts any header-only packet whose message type has the PROTACK bits (type & 11 == 11, e.g. NORMAL = 15) as acknowledgement; the property only "
+               "demands success on PROTACK, the model mirrors the mask",
+               "channel ids are not reused after Close: at most 65536 NewChannel calls per connection succeed (C12_ids_distinct holds for every number of calls; later calls fail)"]
+LEVEL_TEXT = ("Machine-checked: C12_routing - for EVERY interleaving of received packets of any channels (registered or not) and closes of other channels, the events a channel "
+              "sees packet by packet and its receive state equal those of the one-channel receive path (rx_run, the subject of C02/C03/C11) on the subsequence addressed to it; "
+              "C12_unknown_channel / C12_closed_channel_unknown - a packet for an id not in the map: one connection error naming the id, no state change; "
+              "C12_ids_distinct - in EVERY schedule of the steps of NewChannel / Close (lock, read counter, atomic add, lookup, insert, delete, unlock by any number of threads) "
+              "all ids ever returned are pairwise distinct and in 0..65535, C12_id_fresh_at_registration, C12_lock_excludes; counter-model C12_ids_unlocked_refuted (the unlocked "
+              "code hands one id to two creators); C12_tx_numbering - for ANY interleaving of the transport writes of channels with distinct ids, selecting by the id in the packet "
+              "HEADER recovers each channel's own writes, whose k-th packet carries number k mod 256, first the header-only SETUP packet (via C01_history: C12_channel_numbering); "
+              "C12_setup_ack - NewChannel writes exactly the SETUP packet, succeeds on a PROTACK header-only answer, fails on other answers, waits while nothing arrives. "
+              "PARTIAL for 'without data races' and real schedules: observed with the race detector and GOMAXPROCS 1/4/16, not proved.")
+LEVEL_NOTE = ("Level: proof of the routing / allocation / numbering / handshake logic over all interleavings of the modelled steps + correspondence (sequential families predicted "
+              "exactly by the model, concurrent histories judged per channel) + race-detector runs as supporting observation. Trusted: Coq kernel, the hand-written models, "
+              "harness + verif hooks, extraction + OCaml driver. No axioms.")
 
 
 def nontrivial(c):
